@@ -67,6 +67,11 @@ def configs(tier):
         for q in range(1, qmax + 1):
             cfgs.append(dict(group='default', d=d, q=q))
     cfgs.append(dict(group='default', d=2, q=2, labels=2))
+    cfgs.append(dict(group='default', d=2, q=1, sparse=True))      # the instance does not carry a feature that is to be replaced
+    cfgs.append(dict(group='default', d=3, q=2, sparse=True))
+    for strat in ('joint', 'product'):
+        for st in ('batch', 'interval', 'sequence', 'uniform', 'geometric'):
+            cfgs.append(dict(group='empty_storage', strat=strat, storage=st, d=2, q=2))
     return cfgs
 
 
@@ -160,14 +165,22 @@ def _default(env, cfg, ctx):
     defaults_copy = dict(defaults)
     imp = guarded(env, 'ctor', DefaultImputer, model, defaults)
     x = sym_row(env, names, 'x')
-    x_copy = dict(x)
     S, form, S_obj = _subsets_forms(env, names)
+    if cfg.get('sparse'):
+        # a sparse instance dict: the last feature is absent and has to be replaced by its default
+        if names[-1] not in S:
+            return
+        del x[names[-1]]
+    x_copy = dict(x)
     S_copy = list(S_obj)
     q = cfg['q']
     preds = guarded(env, 'impute', imp.impute, S_obj, x, q)
     env.claim('returns_n_samples_predictions', isinstance(preds, list) and len(preds) == q)
     env.claim('model_evaluated', len(model.calls) >= 1)
     for z in model.calls:
+        env.claim('model_input_carries_every_feature', all(f in z for f in names), detail=f"model input keys {list(z.keys())}")
+        if not all(f in z for f in names):
+            return
         for f in names:
             if f in S:
                 env.claim('imputed_features_take_the_configured_default', same_term(z[f], defaults[f]))
@@ -185,7 +198,7 @@ def _default(env, cfg, ctx):
     env.claim('defaults_unmodified', all(same_term(defaults[k], defaults_copy[k]) for k in defaults_copy))
     env.claim('no_random_draws', len(ctx.py_random.calls) == 0)
     if S:
-        env.canary('subset_not_left_untouched', all(same_term(model.calls[0][f], x[f]) for f in S))
+        env.canary('subset_not_left_untouched', all(f in x and same_term(model.calls[0][f], x[f]) for f in S))
 
 
 def _history(env, cfg, ctx):
@@ -237,3 +250,30 @@ def _history(env, cfg, ctx):
 
 
 META['explanation'] += ' Histories on one imputer object with an arbitrary subset per call and a second imputer object in the same process.'
+
+
+def _empty_storage(env, cfg, ctx):
+    """imputing from a storage that holds nothing yet: whatever the imputer does (the pinned code refuses with an exception),
+    it does not put anything into the storage and does not touch the instance"""
+    names = names_for('str', cfg['d'])
+    model = UFModel(env, names)
+    storage, rows, ys = build_storage(env, cfg['storage'], names, 0, store_targets=True, cap=2)
+    imp = guarded(env, 'ctor', MarginalImputer, model, cfg['strat'], storage)
+    x = sym_row(env, names, 'x')
+    x_copy = dict(x)
+    S, form, S_obj = _subsets_forms(env, names)
+    try:
+        preds = imp.impute(S_obj, x, cfg['q'])
+        env.claim('empty_storage:returns_n_samples_predictions_or_refuses', isinstance(preds, list) and len(preds) == cfg['q'],
+                  detail=f"returned {preds!r}")
+    except (ValueError, IndexError, KeyError):
+        pass
+    xs, ys_now = storage.get_data()
+    env.claim('empty_storage_stays_empty', len(storage) == 0 and len(xs) == 0 and len(ys_now) == 0,
+              detail=f"after impute the storage holds {len(xs)} instances / {len(ys_now)} targets")
+    env.claim('instance_unmodified', list(x.keys()) == list(x_copy.keys()) and all(same_term(x[k], x_copy[k]) for k in x_copy))
+    # the storage still works afterwards: the first real observation is stored alone, with its own target
+    x1, y1 = sym_row(env, names, 'first'), env.real('first_y')
+    guarded(env, 'update', storage.update, x1, y1)
+    xs, ys_now = storage.get_data()
+    env.claim('first_observation_stored_alone_with_its_target', len(xs) == 1 and xs[0] is x1 and len(ys_now) == 1 and same_term(ys_now[0], y1))
